@@ -60,16 +60,28 @@ CONTRACTS = [
                       "other-unchanged": aligned("other") + " and len(other._tree_split_bitmasks) == old(len(other._tree_split_bitmasks))"}),
     Contract(TC + ":TreeArray.extend", types={"tree_array": "ref:TreeArray", "return": "ref:TreeArray"},
              requires=aligned("self") + " and " + aligned("tree_array") + " and self != tree_array and self.taxon_namespace == tree_array.taxon_namespace "
-                      "and self._is_rooted_trees is tree_array._is_rooted_trees and self.ignore_edge_lengths is tree_array.ignore_edge_lengths "
-                      "and self.ignore_node_ages is tree_array.ignore_node_ages and self.use_tree_weights is tree_array.use_tree_weights",
-             modifies=LISTS, frame=False,
-             ensures={"aligned": aligned("self"), "concatenated": grown("self", "len(tree_array._tree_split_bitmasks)"), "returns-self": "result == self"}),
+                      "and self.ignore_edge_lengths is tree_array.ignore_edge_lengths "
+                      "and self.ignore_node_ages is tree_array.ignore_node_ages and self.use_tree_weights is tree_array.use_tree_weights "
+                      # compatible rooting in the property's sense: equal, or one side is empty with undefined rooting
+                      "and (self._is_rooted_trees is tree_array._is_rooted_trees "
+                      "or (len(tree_array._tree_split_bitmasks) == 0 and isnone(tree_array._is_rooted_trees)) "
+                      "or (len(self._tree_split_bitmasks) == 0 and isnone(self._is_rooted_trees)))",
+             modifies=LISTS + ["self._is_rooted_trees"], frame=False, inline=("__len__",),
+             ensures={"aligned": aligned("self"), "concatenated": grown("self", "len(tree_array._tree_split_bitmasks)"), "returns-self": "result == self",
+                      "rooting": "ite(old(len(self._tree_split_bitmasks)) == 0 and isnone(old(self._is_rooted_trees)), "
+                                 "self._is_rooted_trees is tree_array._is_rooted_trees, self._is_rooted_trees is old(self._is_rooted_trees))"}),
     Contract(TC + ":TreeArray.__iadd__", types={"tree_array": "ref:TreeArray", "return": "ref:TreeArray"},
              requires=aligned("self") + " and " + aligned("tree_array") + " and self != tree_array and self.taxon_namespace == tree_array.taxon_namespace "
-                      "and self._is_rooted_trees is tree_array._is_rooted_trees and self.ignore_edge_lengths is tree_array.ignore_edge_lengths "
-                      "and self.ignore_node_ages is tree_array.ignore_node_ages and self.use_tree_weights is tree_array.use_tree_weights",
-             modifies=LISTS, frame=False,
-             ensures={"aligned": aligned("self"), "concatenated": grown("self", "len(tree_array._tree_split_bitmasks)"), "returns-self": "result == self"}),
+                      "and self.ignore_edge_lengths is tree_array.ignore_edge_lengths "
+                      "and self.ignore_node_ages is tree_array.ignore_node_ages and self.use_tree_weights is tree_array.use_tree_weights "
+                      # compatible rooting in the property's sense: equal, or one side is empty with undefined rooting
+                      "and (self._is_rooted_trees is tree_array._is_rooted_trees "
+                      "or (len(tree_array._tree_split_bitmasks) == 0 and isnone(tree_array._is_rooted_trees)) "
+                      "or (len(self._tree_split_bitmasks) == 0 and isnone(self._is_rooted_trees)))",
+             modifies=LISTS + ["self._is_rooted_trees"], frame=False, inline=("__len__",),
+             ensures={"aligned": aligned("self"), "concatenated": grown("self", "len(tree_array._tree_split_bitmasks)"), "returns-self": "result == self",
+                      "rooting": "ite(old(len(self._tree_split_bitmasks)) == 0 and isnone(old(self._is_rooted_trees)), "
+                                 "self._is_rooted_trees is tree_array._is_rooted_trees, self._is_rooted_trees is old(self._is_rooted_trees))"}),
     Contract(TC + ":TreeArray.add_tree", types={"tree": "ref:Tree", "is_bipartitions_updated": "opaque", "index": "opt int", "return": "opaque"},
              requires=aligned("self"), modifies=LISTS + ["self._is_rooted_trees"], frame=False, allowed_raises=ALLOWED_ADD,
              inline=("validate_rooting",),
